@@ -38,6 +38,9 @@ type Obligation struct {
 	Heap    map[string]*Term
 	AtExit  bool
 	NEvents int
+	// bounded components (failing run: the test and its output become the replay)
+	BoundedTest string
+	BoundedOut  string
 }
 
 type Executor struct {
